@@ -2773,6 +2773,14 @@ class Cond(Generic[X, R], GFI[X, R]):
         **kwargs,
     ) -> tuple[Trace[X, R], Weight, X]:
         (check, *rest_args) = args
+        # Addresses that are not constrained keep the value that was *visible* in
+        # the old trace - also in the branch that was hidden so far, which may
+        # become the visible one if the condition changes.
+        old_visible = tr.get_choices()
+        if x is None:
+            x = old_visible
+        elif isinstance(old_visible, dict) and isinstance(x, dict):
+            x, _ = self.callee.merge(old_visible, x)
         new_tr, w, discard = self.callee.update(tr.trs[0], x, *rest_args, **kwargs)
         new_tr_, w_, discard_ = self.callee_.update(tr.trs[1], x, *rest_args, **kwargs)
         # The discard holds the values that were visible in the old trace,
